@@ -150,6 +150,12 @@ type Service struct {
 	// Channel to receive high watermark updates from the cluster.
 	hwmObCh chan uint64
 
+	// unsentEv is an event a leader loop took from the FIFO but could not send
+	// before it was stopped. The FIFO does not emit an item twice, so the next
+	// leader loop must start with it. Only accessed by leader loops, which never
+	// run concurrently.
+	unsentEv *Event
+
 	// For CDC shutdown.
 	wg      sync.WaitGroup
 	done    chan struct{}
@@ -506,11 +512,18 @@ func (s *Service) leaderLoop() (chan struct{}, chan struct{}) {
 		}()
 
 		for {
-			select {
-			case <-stop:
-				return
-
-			case ev := <-s.fifo.C:
+			var ev *Event
+			if s.unsentEv != nil {
+				// Left behind by the previous leader loop of this node.
+				ev, s.unsentEv = s.unsentEv, nil
+			} else {
+				select {
+				case <-stop:
+					return
+				case ev = <-s.fifo.C:
+				}
+			}
+			{
 				if ev == nil {
 					return
 				}
@@ -566,6 +579,7 @@ func (s *Service) leaderLoop() (chan struct{}, chan struct{}) {
 					select {
 					case <-stop:
 						t.Stop()
+						s.unsentEv = ev
 						return
 					case <-t.C:
 					}
